@@ -17,7 +17,9 @@
                                     Crash            the C++ has undefined behaviour here (NULL dereference, write
                                                      through NULL[-1], out-of-bounds table access, branch on an
                                                      uninitialised info byte, allocation that cannot succeed)
-                                    Hang             a loop of >= 2^26 iterations over a stream that has already failed
+                                    Hang             resource-dependent: a loop of >= 2^26 iterations over a stream that has
+                                                     already failed, or >= 2^32 bytes of table fillers written (the real result
+                                                     depends on the machine: the comparison accepts any)
    Stream errors are sticky in the C++ (`in.error_code`): a record in which a read fails is executed to its end
    with whatever the helpers return, then the `while` condition fails.  The model does the same: every primitive
    is total, returns what the C++ returns on failure, and consumes the bytes the C++ consumes (so that a later short
@@ -56,6 +58,10 @@ Definition u32 (n : N) : N := n mod 4294967296.
    than that and no swap); a loop of 2^26 or more iterations whose reads fail does not end within the time limit *)
 Definition alloc_fails (nbytes : N) : bool := 68719476736 <=? nbytes.
 Definition big_loop : N := 67108864.
+(* a loop that only writes memory (the fillers of a name table) finishes quickly below 2^32 bytes; from there up to the
+   allocation limit whether it finishes within the time limit and the memory of the machine is not determined by the
+   program: Hang, which the comparison treats as "any result" *)
+Definition mem_slow (nbytes : N) : bool := 4294967296 <=? nbytes.
 
 Definition set_err (s : strm) (e : serr) : strm :=      (* `if (in.error_code == NoError) in.error_code = e` *)
   match s_err s with Some _ => s | None => mkS (s_bs s) (Some e) end.
@@ -753,7 +759,7 @@ Definition h_name (st : rstate) (which : N) (explicit : bool) (s : strm) : hres 
       if explicit then
         let (k, s2) := s_uint s1 in
         if (t_count t <=? k) && alloc_fails ((k + 1) * 24) && (t_count t <? k) then H_end Crash  (* ensure_slots fails, fillers written *)
-        else if (t_count t <=? k) && (big_loop <=? k - t_count t) then H_end Hang           (* the filler loop *)
+        else if (t_count t <=? k) && mem_slow ((k + 1) * 24) then H_end Hang   (* the filler loop writes that much memory *)
         else H_cont (set_table st which (tab_set t k e) (RT_name which k)) s2
       else H_cont (set_table st which (tab_append t e) (RT_name which (t_count t))) s1
   end.
